@@ -575,11 +575,11 @@ func (c *Ctx) rulesC07(a *coreAnchors) {
 	c.rule("C07.part", "in every negotiation emit function, rejecting a single state (deleting it from the target) is dominated by IsAuto() && State.Auto")
 	c.rule("C07.iter", "no in-place deletion from a slice that aliases the operand of an enclosing range loop")
 	f := a.emitEvents
-	nam := c.sitesIn(f, "iface:RelationsResolver.NewAutoMutation")
+	nam := c.innerSites(f, "iface:RelationsResolver.NewAutoMutation")
 	c.check(len(nam) == 1, "C07.trig", "emitEvents creates the auto mutation once", f.Pos(), fmt.Sprintf("%d NewAutoMutation call sites in emitEvents", len(nam)))
 	// who-may-call
 	for _, g := range c.Funcs {
-		if g == f || topFunc(g).Pkg == nil || relPkg(topFunc(g).Pkg.Pkg.Path()) != pm {
+		if g == f || topFunc(g).Pkg == nil || relPkg(topFunc(g).Pkg.Pkg.Path()) != pm || (g.Parent() == nil && c.hostedBy(g, f)) {
 			continue
 		}
 		for i, s := range c.sitesIn(g, "iface:RelationsResolver.NewAutoMutation") {
@@ -600,6 +600,7 @@ func (c *Ctx) rulesC07(a *coreAnchors) {
 			if g.Pol == neg {
 				return false
 			}
+			v = c.hostedArg(v, f)
 			return flowsFrom(v, func(x ssa.Value) bool {
 				u, ok := x.(*ssa.UnOp)
 				if !ok || u.Op != token.NOT {
@@ -611,18 +612,18 @@ func (c *Ctx) rulesC07(a *coreAnchors) {
 		}},
 	}
 	for i, s := range nam {
-		c.requireGuards("C07.trig", "emitEvents>NewAutoMutation"+nth(i), s, preds...)
+		c.requireGuardsHosted("C07.trig", "emitEvents>NewAutoMutation"+nth(i), s, f, preds...)
 	}
 	// the PrependMut of the auto mutation
 	np := 0
-	for _, s := range c.sitesIn(f, funcKey(a.prependMut)) {
+	for _, s := range c.innerSites(f, funcKey(a.prependMut)) {
 		args := s.Common().Args
 		fromAuto := flowsFrom(args[len(args)-1], func(x ssa.Value) bool {
 			call, ok := x.(*ssa.Call)
 			return ok && call.Call.IsInvoke() && call.Call.Method.Name() == "NewAutoMutation"
 		})
 		c.check(fromAuto, "C07.trig", "emitEvents>PrependMut"+nth(np)+" argument is the auto mutation", s.Pos(), "the only mutation emitEvents may prepend is the one returned by NewAutoMutation")
-		c.requireGuards("C07.trig", "emitEvents>PrependMut"+nth(np), s, preds...)
+		c.requireGuardsHosted("C07.trig", "emitEvents>PrependMut"+nth(np), s, f, preds...)
 		np++
 	}
 	c.check(np == 1, "C07.trig", "emitEvents prepends the auto mutation once", f.Pos(), fmt.Sprintf("%d PrependMut sites", np))
@@ -893,7 +894,9 @@ func (c *Ctx) rulesC14(a *coreAnchors, la *LockAnalysis) {
 			continue
 		}
 		nb++
-		good := w.Fn == a.newTransition && flowsFrom(w.Val, isTimeCall)
+		// in newTransition, or in a private helper of it that is handed the value
+		good := (w.Fn == a.newTransition || c.hostedBy(w.Fn, a.newTransition)) &&
+			flowsFrom(w.Val, func(v ssa.Value) bool { return isTimeCall(v) || isTimeCall(c.hostedArg(v, a.newTransition)) })
 		c.check(good, "C14.time", "TimeBefore written in "+funcKey(w.Fn)+nth(nb-1), w.Instr.Pos(), "TimeBefore must be assigned once, in newTransition, from Machine.time(nil); stored "+render(w.Val))
 		if good && la != nil {
 			for _, src := range timeCallsFeeding(w.Val) {
